@@ -10,7 +10,9 @@ RENAME = {"R2B1": ("C05c", "C05"), "R2B3": ("C15c", "C15"), "R2A2": ("C04c", "C0
           "R3A1": ("C09c", "C09"), "R3A2": ("C15e", "C15"), "R3A3": ("C11c", "C11"), "R3B1": ("C17c", "C17"), "R3B2": ("C05d", "C05"),
           "R3B3": ("C12c", "C12"), "R3C1": ("C13c", "C13"), "R3C2": ("C13d", "C13"), "R3C3": ("C14c", "C14"),
           "R4A1": ("C07c", "C07"), "R4A2": ("C14d", "C14"), "R4A3": ("C04d", "C04"), "R4B1": ("C04e", "C04"), "R4B2": ("C01c", "C01"),
-          "R4B3": ("C15f", "C15"), "R4C1": ("C11d", "C11"), "R4C2": ("C13e", "C13"), "R4C3": ("C07d", "C07")}
+          "R4B3": ("C15f", "C15"), "R4C1": ("C11d", "C11"), "R4C2": ("C13e", "C13"), "R4C3": ("C07d", "C07"),
+          "R5A1": ("C15g", "C15"), "R5A2": ("C18c", "C18"), "R5A3": ("C16c", "C16"), "R5B1": ("C17d", "C17"), "R5B2": ("C01d", "C01"),
+          "R5B3": ("C02c", "C02"), "R5C1": ("C05e", "C05"), "R5C2": ("C12d", "C12"), "R5C3": ("C11e", "C11")}
 NEEDS = {
  "C01a": "is_callable_above_mark rewritten with position() (bottom-most MARK): needs nested MARKs with a callable right above the lower one and OBJ chosen with a bare MARK on top, then fixed-arity pops; ~1 in 1e5 PRNG pickles",
  "C01b": "STACK_GLOBAL guard relaxed whenever an installed mutator reports is_unsafe(): needs protocol 4/5, safe mode, the typeconfusion mutator registered",
@@ -69,6 +71,15 @@ NEEDS = {
  "R4C1": "with_max_opcodes lowers min_opcodes to max (and with_min_opcodes raises max): the result depends on the order of the two single setters: needs the separate setters with max below the current min, max set last",
  "R4C2": "output files opened without truncate: an existing longer file keeps a stale tail, exit status 0: needs the CLI writing onto an existing longer file (single mode or a re-used --dir)",
  "R4C3": "a 2-second wall-clock budget breaks the body loop early: needs generation slower than 2 s (25k+ opcodes in release) or a process suspended mid-generation",
+ "R5A1": "offbyone mutate_int with checked_add/sub instead of wrapping: at i32::MAX+1 / i32::MIN-1 the fired mutator returns None: needs exactly i32::MIN or i32::MAX (fuzzer bytes; the PRNG hits them with probability 2^-32)",
+ "R5A2": "PRNG arm of gen_bytes collects whole u32 words without truncating: 4*ceil(len/4) bytes: seeded mode only, len not a multiple of 4 (gen_bytes has no caller in the generator)",
+ "R5A3": "unsafe memo-index mutator draws from gen_range(0, max(index+1, 1000)): needs an original index >= 1000 (a memo of more than 1000 entries, ~30000 opcodes) or a direct call",
+ "R5B1": "LONG_BINGET: the simulated stack gets the picked memo index while the bytes carry the validated mutated one: needs protocol >= 1, OffByOne or MemoIndex(safe) accepted on a LONG_BINGET, a neighbouring memo entry of another kind and a later typed opcode on that slot (~1% of pickles at rate 1.0); pickletools.dis still passes",
+ "R5B2": "BINPERSID pushes Any and the STACK_GLOBAL guard accepts Any, but the STACK_GLOBAL effect still pushes only for two Strings: the simulation loses a slot: needs protocol 4/5 and a BINPERSID result reaching STACK_GLOBAL (3-6% of default protocol-4/5 seeds)",
+ "R5B3": "memo mutators also perturb the PUT index (only free indices): MEMOIZE's implicit index collides while the gap is open: needs protocol 4/5, OffByOne or MemoIndex(safe) firing upwards on a PUT and MEMOIZE before another PUT",
+ "R5C1": "with buffer opcodes on, BINBYTES8/BYTEARRAY8 payloads >= 16 bytes are replaced by a directly emitted NEXT_BUFFER (bypassing table and guard): protocol 4 gets a protocol-5 opcode: needs protocol 4 and allow_buffer",
+ "R5C2": "can_emit(NEWOBJ_EX) demands a dict with a string key (any instead of all): an empty kwargs dict is rejected: NEWOBJ_EX practically unreachable: visible only as a seed search",
+ "R5C3": "MAX_STACK_DEPTH = 1000 breaks the body loop: fewer than min_opcodes body opcodes: needs an opcode range of ~2000 or more",
  "R2A3": "fuzzer-mode gen_unit_f64 = bits / u64::MAX, exactly 1.0 for bits >= 0xFFFFFFFFFFFFFC00: needs fuzzer-bytes mode, rate 1.0 and eight gate bytes above that threshold",
 }
 for d in sorted(NEEDS):
